@@ -53,7 +53,7 @@ def _rd_access(e: ast.AST, rd: str) -> str | None:
     return None
 
 
-def r1(ctx) -> None:
+def r1(ctx, rule: str = "C03-R1") -> None:
     repo = ctx.repo
     cr = ctx.fn(GRP, "OptimizationGroup.create_result_data")
     cfg = lib.cfg(cr)
@@ -63,7 +63,7 @@ def r1(ctx) -> None:
         if isinstance(t, ast.Subscript) and isinstance(t.value, ast.Name) and lib.const_str(t.slice):
             st.setdefault(lib.const_str(t.slice), []).append((t, s))
     for key in ("residual", "fitted_data", "matrix", "clp"):
-        ctx.ob("C03-R1", f"create_result_data/stores:{key}", key in st, cr, st[key][0][1] if key in st else cr.node,
+        ctx.ob(rule, f"create_result_data/stores:{key}", key in st, cr, st[key][0][1] if key in st else cr.node,
                f"the result dataset gets `{key}`", construct=lib.short(st[key][0][1]) if key in st else "def create_result_data")
     if not all(k in st for k in ("residual", "fitted_data")):
         return
@@ -72,10 +72,10 @@ def r1(ctx) -> None:
     t_fit, s_fit = st["fitted_data"][0]
     v = s_fit.value
     ok = isinstance(v, ast.BinOp) and isinstance(v.op, ast.Sub) and _rd_access(v.left, rd) == "data" and _rd_access(v.right, rd) == "residual"
-    ctx.ob("C03-R1", "create_result_data/fitted-is-data-minus-residual", ok, cr, s_fit,
+    ctx.ob(rule, "create_result_data/fitted-is-data-minus-residual", ok, cr, s_fit,
            "fitted_data = data - residual, both of the same result dataset")
     aw = [c for c in lib.method_calls(cr, "add_weight_to_result_data")]
-    ctx.sites("C03-R1", "add_weight_to_result_data call", len(aw), 1)
+    ctx.sites(rule, "add_weight_to_result_data call", len(aw), 1)
     loop = None
     for a in lib.ancestors(s_res, cr.node):
         if isinstance(a, ast.For):
@@ -84,26 +84,26 @@ def r1(ctx) -> None:
     lab = norm(loop.target.elts[0]) if loop is not None and isinstance(loop.target, ast.Tuple) else None
     for c in aw:
         s_w = lib.stmt_of(c)
-        ctx.ob("C03-R1", "create_result_data/weight-after-residual", cfg.dominates(s_res, s_w) and s_res.lineno < s_w.lineno, cr, s_w,
+        ctx.ob(rule, "create_result_data/weight-after-residual", cfg.dominates(s_res, s_w) and s_res.lineno < s_w.lineno, cr, s_w,
                "the residual is stored before it is divided by the weight")
-        ctx.ob("C03-R1", "create_result_data/unweighting-before-fitted", cfg.dominates(s_w, s_fit) and s_w.lineno < s_fit.lineno, cr, s_fit,
+        ctx.ob(rule, "create_result_data/unweighting-before-fitted", cfg.dominates(s_w, s_fit) and s_w.lineno < s_fit.lineno, cr, s_fit,
                "fitted_data is computed from the un-weighted residual: the weight division dominates it")
-        ctx.ob("C03-R1", "create_result_data/weight-call-args", len(c.args) == 2 and norm(c.args[0]) == lab and norm(c.args[1]) == rd, cr, s_w,
+        ctx.ob(rule, "create_result_data/weight-call-args", len(c.args) == 2 and norm(c.args[0]) == lab and norm(c.args[1]) == rd, cr, s_w,
                "the weight of this dataset is applied to this result dataset")
     # no later store of residual between weight call and fitted
-    ctx.ob("C03-R1", "create_result_data/residual-stored-once", len(st["residual"]) == 1, cr, s_res, "the residual is stored once")
+    ctx.ob(rule, "create_result_data/residual-stored-once", len(st["residual"]) == 1, cr, s_res, "the residual is stored once")
     for key, src in (("residual", "residuals"), ("matrix", "matrices"), ("clp", "clps")):
         if key in st:
             t, s = st[key][0]
             ok = isinstance(s.value, ast.Subscript) and norm(s.value.value) == src and norm(s.value.slice) == lab
-            ctx.ob("C03-R1", f"create_result_data/own-label:{key}", ok, cr, s, f"`{key}` of a dataset is `{src}[<its own label>]`")
+            ctx.ob(rule, f"create_result_data/own-label:{key}", ok, cr, s, f"`{key}` of a dataset is `{src}[<its own label>]`")
     unp = {}
     for t, s in lib.stores(cr):
         if isinstance(s, ast.Assign) and isinstance(s.targets[0], ast.Tuple) and isinstance(s.value, ast.Call):
             unp[norm(s.value.func)] = [norm(x) for x in s.targets[0].elts]
-    ctx.ob("C03-R1", "create_result_data/unpack-matrix-result", unp.get("self._matrix_provider.get_result") == ["global_matrices", "matrices"], cr, cr.node,
+    ctx.ob(rule, "create_result_data/unpack-matrix-result", unp.get("self._matrix_provider.get_result") == ["global_matrices", "matrices"], cr, cr.node,
            "MatrixProvider.get_result returns (global_matrices, matrices)", construct=str(unp.get("self._matrix_provider.get_result")))
-    ctx.ob("C03-R1", "create_result_data/unpack-estimation-result", unp.get("self._estimation_provider.get_result") == ["clps", "residuals"], cr, cr.node,
+    ctx.ob(rule, "create_result_data/unpack-estimation-result", unp.get("self._estimation_provider.get_result") == ["clps", "residuals"], cr, cr.node,
            "EstimationProvider.get_result returns (clps, residuals)", construct=str(unp.get("self._estimation_provider.get_result")))
     for rel, name, want in ((MAT, "MatrixProvider.get_result", ["global_matrices", "matrices"]),
                             (EST, "EstimationProviderUnlinked.get_result", ["clps", "residuals"]),
@@ -111,7 +111,7 @@ def r1(ctx) -> None:
         f = ctx.fn(rel, name)
         for r in lib.nodes(f, ast.Return):
             got = [norm(x) for x in r.value.elts] if isinstance(r.value, ast.Tuple) else []
-            ctx.ob("C03-R1", f"{name}/return-order", got == want, f, r, f"returns ({', '.join(want)})")
+            ctx.ob(rule, f"{name}/return-order", got == want, f, r, f"returns ({', '.join(want)})")
     # add_weight_to_result_data
     aw_f = ctx.fn(GRP, "OptimizationGroup.add_weight_to_result_data")
     cfg2 = lib.cfg(aw_f)
@@ -126,7 +126,7 @@ def r1(ctx) -> None:
     w2 = sts.get("residual", [None])[0]
     res_atom = Poly.atom(("sub", Poly.atom(("name", rdp)).key(), Poly.atom(("str", "residual")).key()))
     ok1 = w1 is not None and fl2.term(w1.value, w1) == res_atom
-    ctx.ob("C03-R1", "add_weight_to_result_data/weighted-is-fit-residual", ok1, aw_f, w1 or aw_f.node,
+    ctx.ob(rule, "add_weight_to_result_data/weighted-is-fit-residual", ok1, aw_f, w1 or aw_f.node,
            "weighted_residual is the residual as delivered by the fit (before division)", construct=lib.short(w1) if w1 else "def")
     wt = None
     for d in fl2.defs_of("weight"):
@@ -138,14 +138,14 @@ def r1(ctx) -> None:
         tv = fl2.term(w2.value, w2)
         wterm = fl2.term(wt.value, wt.node)
         ok2 = tv == res_atom / wterm
-    ctx.ob("C03-R1", "add_weight_to_result_data/residual-is-weighted-over-weight", ok2, aw_f, w2 or aw_f.node,
+    ctx.ob(rule, "add_weight_to_result_data/residual-is-weighted-over-weight", ok2, aw_f, w2 or aw_f.node,
            "residual = weighted residual / weight of this dataset (so that weighted_residual = weight x residual)",
            construct=lib.short(w2) if w2 else "def")
     if w1 is not None and w2 is not None:
-        ctx.ob("C03-R1", "add_weight_to_result_data/order", cfg2.dominates(w1, w2) and w1.lineno < w2.lineno, aw_f, w2,
+        ctx.ob(rule, "add_weight_to_result_data/order", cfg2.dominates(w1, w2) and w1.lineno < w2.lineno, aw_f, w2,
                "the weighted residual is saved before the residual is divided")
     nones = [n for n in lib.nodes(aw_f, ast.If) if norm(n.test) in ("weight is None",) and n.body and isinstance(n.body[-1], ast.Return)]
-    ctx.ob("C03-R1", "add_weight_to_result_data/unweighted-untouched", len(nones) == 1, aw_f, nones[0] if nones else aw_f.node,
+    ctx.ob(rule, "add_weight_to_result_data/unweighted-untouched", len(nones) == 1, aw_f, nones[0] if nones else aw_f.node,
            "without weight the residual is left as it is", construct="if weight is None: return")
 
 
